@@ -30,6 +30,20 @@ def name_table(facts):
             raise AnchorError("PackageType::name not found")
         k = ks[0]
     tab = {}
+    # table form: NAMES[*self as usize] with a constant array -- the i-th variant (default discriminants 0, 1, ..) maps
+    # to the i-th string
+    t0 = norm(facts.body(k).resolve_local(0))
+    if t0[0] == "index" and t0[1][0] in ("named", "const") and t0[2][0] == "cast" and t0[2][2][0] == "discr" and t0[2][2][1] == ("arg", 1):
+        arr = t0[1][3] if t0[1][0] == "named" else t0[1][1]
+        variants = list(t0[2][2][2])
+        default_discr = False
+        for bl in facts.body(k).blocks:
+            for st in bl["stmts"]:
+                if st.get("s") == "assign" and st["rv"].get("r") == "discr" and st["rv"].get("discrs") is not None:
+                    default_discr = st["rv"]["discrs"] == list(range(len(variants)))
+        if isinstance(arr, tuple) and arr and arr[0] == "array" and len(arr[1]) == len(variants) and all(isinstance(x, str) for x in arr[1]) and default_discr:
+            return k, dict(zip(variants, arr[1]))
+        raise AnchorError("name(): table lookup whose table does not line up with the variants", k)
     for o in paths.outcomes(facts, k):
         vs = [a for a in o["atoms"] if a[0] in ("is", "isin")]
         r = o["ret"]
